@@ -296,6 +296,58 @@ theorem lagUnit_units :
   · rcases hu with rfl | rfl | rfl <;> rfl
   · rcases hu with rfl | rfl | rfl | rfl <;> rfl
 
+/-! ### 5b. `resolution_delta` on the caller's RAW unit string -/
+
+/-- the exact string `"month"` is month arithmetic … -/
+theorem resolutionDeltaRaw_month (d : Date) (q : Int) (neg : Bool) :
+    resolutionDeltaRaw d q "month" neg = resolutionDelta d q .month neg := by
+  cases neg <;> rfl
+
+/-- … and EVERY other unit string is day arithmetic with the UNSCALED quantity: `"months"`, `"quarter"`, `"year"`, `"week"`
+included (the function does not standardise; `standardize_resolution` must have been applied by the caller) -/
+theorem resolutionDeltaRaw_other (d : Date) (q : Int) (units : String) (neg : Bool) (h : units ≠ "month") :
+    resolutionDeltaRaw d q units neg = resolutionDelta d q .day neg := by
+  have : (units == "month") = false := by simpa using h
+  cases neg <;> simp [resolutionDeltaRaw, resolutionDelta, this]
+
+/-- on the output of `standardize_resolution` (how `aggregate` calls it) the raw function is the two-unit one: the clause
+"agrees with add_months for month units and with day arithmetic for day and week units" holds for the composition -/
+theorem resolutionDeltaRaw_standardized (d : Date) (q q' : Int) (u : String) (ru : ResUnit) (neg : Bool)
+    (_h : standardizeResolution q u = .ok (q', ru)) :
+    resolutionDeltaRaw d q' ru.name neg = resolutionDelta d q' ru neg := by
+  cases ru
+  · exact resolutionDeltaRaw_month d q' neg
+  · exact resolutionDeltaRaw_other d q' "day" neg (by decide)
+
+/-- the library's own raw calls `resolution_delta(period_start, (-1, "days"))` / `(1, "days")` are day arithmetic -/
+theorem resolutionDeltaRaw_days (d : Date) (q : Int) (neg : Bool) :
+    resolutionDeltaRaw d q "days" neg = d.addDays (if neg then -q else q) := by
+  rw [resolutionDeltaRaw_other d q "days" neg (by decide), resolutionDelta_day]
+
+/-- WITNESS of the raw-string behaviour: from 2020-01-31, `(1, "months")`, `(1, "quarter")`, `(1, "year")`, `(1, "week")` all
+give 2020-02-01 (one DAY later), while the standardised resolutions give 2020-02-29, 2020-04-30, 2021-01-31, 2020-02-07 -/
+theorem resolutionDeltaRaw_unstandardized_units :
+    resolutionDeltaRaw ⟨2020, 1, 31⟩ 1 "months" = ⟨2020, 2, 1⟩ ∧ resolutionDeltaRaw ⟨2020, 1, 31⟩ 1 "quarter" = ⟨2020, 2, 1⟩ ∧
+    resolutionDeltaRaw ⟨2020, 1, 31⟩ 1 "year" = ⟨2020, 2, 1⟩ ∧ resolutionDeltaRaw ⟨2020, 1, 31⟩ 1 "week" = ⟨2020, 2, 1⟩ ∧
+    resolutionDelta ⟨2020, 1, 31⟩ 1 .month = ⟨2020, 2, 29⟩ ∧ resolutionDelta ⟨2020, 1, 31⟩ 3 .month = ⟨2020, 4, 30⟩ ∧
+    resolutionDelta ⟨2020, 1, 31⟩ 12 .month = ⟨2021, 1, 31⟩ ∧ resolutionDelta ⟨2020, 1, 31⟩ 7 .day = ⟨2020, 2, 7⟩ := by
+  decide +kernel
+
+/-! ### 5c. ordinals -/
+
+/-- `ofOrdinal` / `ordinal` are inverse on the whole `date.min .. date.max` range (ordinals 1 .. 3652059): the date built
+from ordinal `n` is a real calendar date with ordinal `n` -/
+theorem ordinal_ofOrdinal (n : Int) (h1 : 1 ≤ n) (h2 : n ≤ 3652059) :
+    (Date.ofOrdinal n).valid = true ∧ (Date.ofOrdinal n).ordinal = n :=
+  ofOrdinal_spec n h1 h2
+
+/-- day lags are antisymmetric: an evaluation date BEFORE the period end has the negative of the forward lag
+(`ordinal_counts_days` then gives negative lags their calendar meaning, too) -/
+theorem devLag_days_antisymm (a b : Date) :
+    calculateDevLag a b .day = - calculateDevLag b a .day ∧
+    calculateDevLag a b .timedelta = - calculateDevLag b a .timedelta := by
+  constructor <;> (unfold calculateDevLag; push_cast; ring)
+
 /-! ### 6. the model satisfies the Spec predicates the driver evaluates on the implementation -/
 
 theorem spec_inverse (p e : Date) (he : e.valid) (h70 : 1970 ≤ e.y) :
@@ -356,6 +408,19 @@ theorem spec_idToMonth (id : Int) (b : Bool) : Spec.idToMonthOk id b (idToMonth 
   unfold Spec.idToMonthOk
   rw [h1, h2]
   cases b <;> simp_all
+
+/-- two calls compose on month ends (every year) -/
+theorem spec_compose (d : Date) (j k : Int) (he : d.isMonthEnd) :
+    Spec.composeOk d j k (addMonths (addMonths d (j : Rat)) (k : Rat)) = true := by
+  rw [addMonths_add d j k he]
+  exact spec_monthEndShift d (j + k) he
+
+/-- adding `-k` undoes adding `k` on month ends (every year) -/
+theorem spec_undo (d : Date) (k : Int) (hv : d.valid) (he : d.isMonthEnd) :
+    Spec.undoOk d (addMonths (addMonths d (k : Rat)) ((-k : Int) : Rat)) = true := by
+  unfold Spec.undoOk
+  rw [addMonths_neg d k hv he]
+  simp
 
 /-! ### 7. non-vacuity: the hypotheses are satisfiable by non-trivial inputs -/
 
